@@ -155,7 +155,7 @@ static GlobalsWatch g_watch;
 
 
 // --------------------------------------------------------------- generation --
-static const int NBUF = 6;
+static const int NBUF = 7;
 static RunPlan gen_plan(Rng& rng, int nrules, bool big) {
   RunPlan rp; rp.rules_idx = (int) rng.below(nrules); rp.fresh_rules = rng.chance(1, 2);
   int T = big ? (int) rng.range(8, 32) : (int) rng.range(2, 6);
@@ -259,9 +259,10 @@ static std::vector<Shared> make_shared(uint64_t seed) {
     Shared sh; LabCase lc;
     if (i == 0) { GenSet all = gen_all_frags(); add_default_externals(lc.spec); lc.spec.sources.push_back({"", all.source() + ext_probe_rules() + "rule md { condition: tests.module_data == \"mdata-1\" }\n"}); Rng r2(5); lc.buffers.push_back("HEAD_EXTMARK " + gen_text_buffer(r2, all.plants(), 1500)); }
     else { lc = gen_labcase(rng, 14, true, true, true); lc.spec.sources[0].second = "import \"tests\"\n" + lc.spec.sources[0].second + "rule md { condition: tests.module_data == \"mdata-1\" }\n"; }
+    lc.spec.sources[0].second += "rule many_ab { strings: $a = \"ab\" condition: #a > 3 }\nrule many_by { strings: $b = \"bystander\" condition: $b }\n";
     CompileResult cr = compile_rules(lc.spec); if (!cr.rules) { fprintf(stderr, "c09: shared rules do not compile: %s\n", cr.messages.c_str()); abort(); }
     sh.rules = cr.rules; save_rules(cr.rules, sh.image);
-    sh.bufs = {lc.buffers[0], corpus_file("tiny"), "", gen_text_buffer(rng, "alpha_text reg77ex EXTMARK", 400), corpus_file("elf_with_imports"), std::string(9000, 'q') + " alpha_text"};
+    sh.bufs = {lc.buffers[0], corpus_file("tiny"), "", gen_text_buffer(rng, "alpha_text reg77ex EXTMARK", 400), corpus_file("elf_with_imports"), std::string(9000, 'q') + " alpha_text", std::string("bystander ") + [] { std::string m; for (int k = 0; k < 300; k++) m += "ab"; return m; }() + " bystander alpha_text"};
     for (size_t b = 0; b < sh.bufs.size(); b++) { std::string p = tmp_dir() + "/c09-" + std::to_string(i) + "-" + std::to_string(b); write_file(p, sh.bufs[b]); sh.files.push_back(p); }
     sh.trunc_path = tmp_dir() + "/c09-trunc-" + std::to_string(i);
     v.push_back(sh);
